@@ -12,7 +12,7 @@ from .common import method, unconditional_in, atom_text
 # nor tested by truthiness where "is None" is meant.
 
 ZERO_LEGIT_KEYS = {'resid', '_old_resid', 'atomid', 'order', 'charge', 'charge_group', 'mass', 'index', 'res_min_dist', 'bond_type',
-                   'minimum_force', 'lower_bound', 'upper_bound', 'decay_factor', 'decay_power', 'base_constant', 'level'}
+                   'minimum_force', 'lower_bound', 'upper_bound', 'decay_factor', 'decay_power', 'base_constant', 'level', 'weight'}
 ZERO_LEGIT_NAME_PARTS = ('resid', 'order', 'atomid')
 
 # truthiness uses that are about strings / lists, confirmed by reading: (module, function, text of the tested expression)
@@ -217,6 +217,12 @@ def partition_graph_rule(ck, rule='DT-partition-edges'):
     ck.ob(rule, gu.loc(fn), ok, 'every fine edge between two different partitions yields (or merges into) a coarse edge between them, nothing else does: ' + detail,
           key=rule + '|partition_graph')
     # (as one `mapping.update({node: idx for node in part})` or as a loop storing `mapping[node] = idx` for every node of the part, unconditionally)
+    # the coarse nodes are numbered by the lowest node key of their partition (input order): iter_residues, and with it "the k-th residue", rests on this
+    pdefs_ = [v for v in assignments_to(fn, param_names(fn)[1])]
+    ck.ob(rule, gu.loc(fn), len(pdefs_) == 1 and isinstance(pdefs_[0], ast.Call) and call_name(pdefs_[0]) == 'sorted' and u(kwarg(pdefs_[0], 'key')) == 'min' and
+          u(pdefs_[0].args[0]) == param_names(fn)[1] and kwarg(pdefs_[0], 'reverse') is None,
+          'the partitions are put in the order of their lowest node key before they are numbered (`{}`)'.format(u(pdefs_[0])[:60] if pdefs_ else 'not sorted'),
+          key=rule + '|partition-order')
     mp = [s for s in ast.walk(fn) if isinstance(s, ast.Expr) and call_attr(s.value) == 'update' and u(s.value.func.value) == 'mapping']
     ok_map = len(mp) == 1 and 'for node_idx in node_idxs' in u(mp[0]) and 'node_idx: idx' in u(mp[0])
     if not mp:
@@ -358,6 +364,8 @@ def no_new_state(ck, rels, rule='STATE-no-memory'):
                     tgt = n
                 elif isinstance(n, ast.Call) and isinstance(n.func, ast.Attribute) and n.func.attr in flow.MUTATOR_METHODS:
                     tgt = n.func.value
+                elif isinstance(n, ast.AugAssign) and isinstance(n.target, ast.Name) and n.target.id in aliases:
+                    tgt = n.target          # `alias += [...]` extends the shared list / set / dict in place
                 elif isinstance(n, ast.Global):
                     for g in n.names:
                         nmod += 1
@@ -678,6 +686,16 @@ def reference_residue_rules(ck, rule):
     rgm = ck.index.mod('vermouth/processors/repair_graph.py')
     grr = rgm.func('_get_reference_residue')
     ck.analysed(rgm, grr)
+    # the residue attributes handed to the reference graph (and from there to every rebuilt atom) are the residue node's *current* ones -- read after a
+    # requested mutation wrote the new residue name into that node, not from a copy taken before
+    mkr = rgm.func('make_reference')
+    ck.analysed(rgm, mkr)
+    adds_ = [c for c in walk_local(mkr) if isinstance(c, ast.Call) and call_attr(c) == 'add_node' and u(c.func.value) == 'reference_graph']
+    star_ = [k.value for c in adds_ for k in c.keywords if k.arg is None]
+    renames_ = [s_ for s_ in walk_local(mkr) if isinstance(s_, ast.Assign) and any(isinstance(t_, ast.Subscript) and u(t_) == "residues.nodes[residx]['resname']" for t_ in s_.targets)]
+    live = len(adds_) == 1 and len(star_) == 1 and u(star_[0]) == 'residues.nodes[residx]'
+    ck.ob(rule, rgm.loc(mkr), live and len(renames_) == 1, 'make_reference passes the residue node itself (`**residues.nodes[residx]`, with the mutated name written into it) on to the '
+          'reference graph ({})'.format(u(star_[0]) if star_ else '?'), key=rule + '|live-residue-attributes')
     ml = [l for l in ast.walk(grr) if isinstance(l, ast.For) and u(l.iter) in ('modifications', "residue['modification']")]
     ok = len(ml) == 1
     detail = ''
@@ -1309,3 +1327,154 @@ def no_shared_object_filled_per_iteration(ck, rels, rule='ALIAS-per-iteration'):
                           'sees what the previous ones left'.format(qual, alias, src, u(writes[0])[:50] if writes else 'no write'),
                           key='{}|{}|{}|{}'.format(rule, rel, qual, alias))
     ck.ob(rule, rels[0] if rels else '-', True, 'per-iteration names for a container built outside the loop: {} examined'.format(n), key=rule + '|scan|' + ','.join(rels))
+
+
+ONE_SHOT_BUILTINS = {'map', 'filter', 'zip', 'iter', 'reversed', 'enumerate'}
+ONE_SHOT_MODULES = {'itertools'}
+
+
+def _one_shot_expr(e, module):
+    """Is `e` an expression whose value can be walked only once?"""
+    if isinstance(e, ast.GeneratorExp):
+        return True
+    if isinstance(e, ast.Call):
+        f = e.func
+        if isinstance(f, ast.Name) and f.id in ONE_SHOT_BUILTINS:
+            return True
+        text = u(f)
+        root = text.split('.')[0]
+        if root in ONE_SHOT_MODULES:
+            return True
+        imported = getattr(module, 'imports', {}) or {}
+        origin = imported.get(root)
+        if origin and str(origin[0]).lstrip('.').split('.')[0] in ONE_SHOT_MODULES:
+            return True
+    return False
+
+
+def no_reused_one_shot_iterator(ck, rels, rule='ITER-local-one-shot'):
+    """A local bound once to a one-shot iterator (generator expression, map/filter/zip/reversed/enumerate, anything from itertools) is walked at most once, and
+    not inside a loop the binding is outside of: the second walk silently finds nothing (seeds C14_q: the warning text consumed what the removal loop then
+    walked; C03_q: groupby sub-iterators stored for later)."""
+    n = 0
+    for rel in rels:
+        module = ck.index.mod(rel)
+        for qual, fn in module.functions.items():
+            stores = {}
+            for x in walk_local(fn):
+                if isinstance(x, ast.Assign) and len(x.targets) == 1 and isinstance(x.targets[0], ast.Name):
+                    stores.setdefault(x.targets[0].id, []).append(x)
+            # every other binding form of the name (loop target, with, aug-assignment, parameter) disqualifies it
+            other = {t.id for x in walk_local(fn) for t in ast.walk(x) if isinstance(t, ast.Name) and isinstance(t.ctx, ast.Store)
+                     and not (isinstance(x, ast.Assign) and len(x.targets) == 1 and x.targets[0] is t)}
+            for name, sts in stores.items():
+                if len(sts) != 1 or name in param_names(fn) or not _one_shot_expr(sts[0].value, module):
+                    continue
+                st = sts[0]
+                rebound_elsewhere = [t for x in walk_local(fn) for t in ast.walk(x) if isinstance(t, ast.Name) and t.id == name and isinstance(t.ctx, ast.Store) and t is not st.targets[0]]
+                if rebound_elsewhere:
+                    continue
+                loads = [t for t in walk_local(fn) if isinstance(t, ast.Name) and t.id == name and isinstance(t.ctx, ast.Load)]
+                parents = {}
+                for p in ast.walk(fn):
+                    for c in ast.iter_child_nodes(p):
+                        parents[id(c)] = p
+                if any(isinstance(parents.get(id(t)), ast.Call) and call_name(parents[id(t)]) == 'next' for t in loads):
+                    continue        # stepped by hand: the iterator protocol is the point
+                n += 1
+
+                def loops_between(t):
+                    out, p = [], parents.get(id(t))
+                    while p is not None and p is not fn:
+                        if isinstance(p, (ast.For, ast.While)) and not any(s is st for s in ast.walk(p)):
+                            # the iterable of a for statement is evaluated once, its body repeatedly
+                            if not (isinstance(p, ast.For) and any(t is y for y in ast.walk(p.iter))):
+                                out.append(p)
+                        if isinstance(p, (ast.ListComp, ast.SetComp, ast.DictComp, ast.GeneratorExp)) and not any(t is y for y in ast.walk(p.generators[0].iter)):
+                            out.append(p)
+                        if isinstance(p, (ast.Lambda, ast.FunctionDef)):
+                            out.append(p)
+                        p = parents.get(id(p))
+                    return out
+                repeated = [t for t in loads if loops_between(t)]
+                # two walks on exclusive branches of one `if` are one walk
+                def branch_path(t):
+                    path, c, p = [], t, parents.get(id(t))
+                    while p is not None and p is not fn:
+                        if isinstance(p, ast.If):
+                            path.append((id(p), 'body' if any(c is s for s in p.body) else 'orelse' if any(c is s for s in p.orelse) else 'test'))
+                        c, p = p, parents.get(id(p))
+                    return path
+                def exclusive(a, b):
+                    pa, pb = dict(branch_path(a)), dict(branch_path(b))
+                    return any(k in pb and {pa[k], pb[k]} == {'body', 'orelse'} for k in pa)
+                clash = [(a, b) for i, a in enumerate(loads) for b in loads[i + 1:] if not exclusive(a, b)]
+                ok = not repeated and not clash
+                why = 'walked again inside a loop / comprehension / closure at line {}'.format(repeated[0].lineno) if repeated else \
+                    'walked at lines {} and {}'.format(clash[0][0].lineno, clash[0][1].lineno) if clash else 'walked once'
+                ck.ob(rule, module.loc(st), ok, '{}: `{}` is bound to a one-shot iterator (`{}`) -- {}'.format(qual, name, u(st.value)[:60], why),
+                      key='{}|{}|{}|{}'.format(rule, rel, qual, name))
+            # the groups handed out by itertools.groupby are views on the one underlying iterator: a group is gone as soon as the next one is asked for,
+            # so it is walked (or materialised) inside its own iteration, once, and never put away for later
+            for loop in [l for l in walk_local(fn) if isinstance(l, ast.For)]:
+                src = loop.iter
+                if isinstance(src, ast.Name):
+                    src = single_def(fn, src.id)
+                if not (isinstance(src, ast.Call) and u(src.func).split('.')[-1] == 'groupby'):
+                    continue
+                if not (isinstance(loop.target, ast.Tuple) and len(loop.target.elts) == 2 and isinstance(loop.target.elts[1], ast.Name)):
+                    continue
+                g = loop.target.elts[1].id
+                n += 1
+                parents = {}
+                for p in ast.walk(loop):
+                    for c in ast.iter_child_nodes(p):
+                        parents[id(c)] = p
+                body_nodes = [x for st_ in loop.body + loop.orelse for x in ast.walk(st_)]
+                rebinds = [x for x in body_nodes if isinstance(x, ast.Assign) and len(x.targets) == 1 and u(x.targets[0]) == g]
+                loads = [t for t in body_nodes if isinstance(t, ast.Name) and t.id == g and isinstance(t.ctx, ast.Load)]
+                if rebinds:
+                    first = min(rebinds, key=lambda x: (x.lineno, x.col_offset))
+                    materialised = isinstance(first.value, ast.Call) and call_name(first.value) in ('list', 'tuple', 'sorted', 'set', 'frozenset', 'dict') and \
+                        any(t is y for t in loads for y in ast.walk(first.value)) and first in loop.body
+                    before = [t for t in loads if (t.lineno, t.col_offset) < (first.lineno, first.col_offset)]
+                    ok = materialised and not before
+                    ck.ob(rule, module.loc(loop), ok, '{}: the group `{}` of a groupby is materialised before anything else walks it'.format(qual, g),
+                          key='{}|{}|{}|group:{}'.format(rule, rel, qual, g))
+                    continue
+                consuming = ('list', 'tuple', 'sorted', 'set', 'frozenset', 'dict', 'sum', 'len', 'any', 'all', 'max', 'min', 'next')
+
+                def consumed_now(t):
+                    c, p = t, parents.get(id(t))
+                    while p is not None and not isinstance(p, ast.stmt):
+                        if isinstance(p, ast.Call) and (call_name(p) in consuming or call_attr(p) in ('extend', 'update', 'join')) and any(c is a for a in p.args):
+                            return True
+                        if isinstance(p, ast.comprehension) and p.iter is c and not isinstance(parents.get(id(p)), ast.GeneratorExp):
+                            return True
+                        if isinstance(p, ast.Starred):
+                            return True
+                        c, p = p, parents.get(id(p))
+                    return isinstance(p, ast.For) and p.iter is c
+                escapes = [t for t in loads if not consumed_now(t)]
+                inner_loops = [t for t in loads if any(isinstance(a, (ast.For, ast.While)) and not (isinstance(a, ast.For) and any(t is y for y in ast.walk(a.iter)))
+                                                       for a in _ancestors(t, parents) if a is not loop)]
+                stepped = any(isinstance(parents.get(id(t)), ast.Call) and call_name(parents[id(t)]) == 'next' for t in loads)     # stepped by hand, then walked: deliberate
+                ok = not escapes and (len(loads) <= 1 or stepped) and not inner_loops
+                why = 'handed on without being walked at line {} (`{}`)'.format(escapes[0].lineno, u(_stmt_of(escapes[0], parents))[:60]) if escapes else \
+                    'walked {} times in one iteration'.format(len(loads)) if len(loads) > 1 and not stepped else 'walked inside an inner loop' if inner_loops else 'walked once, in its own iteration'
+                ck.ob(rule, module.loc(loop), ok, '{}: the group `{}` of a groupby is {}'.format(qual, g, why), key='{}|{}|{}|group:{}'.format(rule, rel, qual, g))
+    ck.ob(rule, rels[0] if rels else '-', True, 'locals bound to a one-shot iterator: {} examined'.format(n), key=rule + '|scan|' + ','.join(rels))
+
+
+def _ancestors(t, parents):
+    p = parents.get(id(t))
+    while p is not None:
+        yield p
+        p = parents.get(id(p))
+
+
+def _stmt_of(t, parents):
+    for p in _ancestors(t, parents):
+        if isinstance(p, ast.stmt):
+            return p
+    return t
